@@ -215,6 +215,51 @@ def lvalue_dep(l):
 MODE_READ, MODE_WRITE = "Reading", "Writing"
 
 
+def range_sizes(body):
+    """{id(RangeFor node): show(count)} where the loop's container was resized to `count` by the nearest preceding sibling
+    statement (searching outwards through the enclosing blocks): the number of iterations of `for (x : c)` after
+    `c.resize(n)` is n, which is what the wire format repeats the element `n` times for."""
+    out = {}
+
+    def resize_of(st, cont):
+        if is_node(st) and st["k"] == "Call" and st.get("short") == "resize" and is_node(st.get("recv")) and st.get("args") \
+                and show(st["recv"]) == cont:
+            return show(st["args"][0])
+        return None
+
+    def rec(n, chain):
+        if not is_node(n):
+            return
+        k = n["k"]
+        if k == "Compound":
+            for i, c in enumerate(n.get("body", [])):
+                rec(c, [(n, i)] + chain)
+            return
+        if k == "RangeFor":
+            cont = show(n["range"])
+            found = None
+            for comp, idx in chain:
+                for j in range(idx - 1, -1, -1):
+                    found = resize_of(comp["body"][j], cont)
+                    if found:
+                        break
+                if found:
+                    break
+            if found:
+                out[id(n)] = found
+        for key in ("then", "else", "body", "sub", "init"):
+            c = n.get(key)
+            if is_node(c) and key != "init":
+                rec(c, chain)
+        for h in n.get("handlers", []) if k == "Try" else []:
+            rec(h, chain)
+        for c in n.get("kids", []) if k == "OtherStmt" else []:
+            rec(c, chain)
+
+    rec(body, [])
+    return out
+
+
 class Flow:
     """Subclass and override the on_* hooks.  run() drives the analysis of one function."""
 
@@ -225,6 +270,7 @@ class Flow:
         self.muted = 0
         self.partition = True
         self.loop_stack = []  # canonical descriptions of the loops enclosing the node being visited
+        self._range_sized = None  # id(RangeFor) -> rendering of the count its container was resized to just before
         self.exits = []  # (kind, node, state) for every return / fall-off-end, final pass only
 
     # ------------------------------------------------------------ hooks
@@ -569,7 +615,10 @@ class Flow:
             return back, join(f, b), r
 
         if k == "RangeFor":
-            self.loop_stack.append("each " + show(s["range"]))
+            if self._range_sized is None:
+                self._range_sized = range_sizes(self.fn.get("body"))
+            sized = self._range_sized.get(id(s))
+            self.loop_stack.append("each " + show(s["range"]) + (" sized " + sized if sized else ""))
         elif s.get("cond") is not None:
             self.loop_stack.append("while " + show(s["cond"]))
         else:
